@@ -277,4 +277,27 @@ theorem rewireIsNoOp_sound (nin w : Nat) (sameKind : Bool) (rs : List Range) (v 
   rw [evalRewire_tiles_rest rs v rest 0 ht]
   exact noopRewire_sound rs v ht (by rw [hsum, hv])
 
+/-! ### removeConstSelectMuxes -/
+
+/-- **`removeConstSelectMuxes`, the decision**: whenever the pass bypasses the mux to data input `k`, the mux computes exactly the
+    (width-adjusted) value at that input — for every selector constant, any number of data inputs (at least one), all values. -/
+theorem constSelectBypass_sound (w : Nat) (sel : BV4) (data : Ins) (k : Nat) (hne : data ≠ [])
+    (h : constSelectBypass sel data.length = some k) : evalMux w (some sel :: data) = copyIn w (data.getD k none) := by
+  unfold constSelectBypass at h
+  by_cases h0 : sel.length = 0
+  · simp only [h0, if_true, Option.some.injEq] at h
+    subst h
+    have : sel = [] := List.eq_nil_of_length_eq_zero h0
+    subst this
+    have hpos : 0 < data.length := List.length_pos_iff.mpr hne
+    exact constSelectMux_sound w [] data rfl (by simpa [BV4.toNat] using hpos)
+  · simp only [h0, if_false] at h
+    split at h
+    · rename_i hc
+      simp only [Bool.and_eq_true, decide_eq_true_eq] at hc
+      simp only [Option.some.injEq] at h
+      subst h
+      exact constSelectMux_sound w sel data hc.1 hc.2
+    · cases h
+
 end Gatery.C01
